@@ -24,7 +24,12 @@ def main():
         common.use_build()
         mod = importlib.import_module("harness." + a.pid.lower())
         if a.replay:
-            return mod.replay(ctx, a.replay)
+            import json
+            rp = json.load(open(a.replay))
+            print(json.dumps(rp, indent=1)[:4000])
+            if hasattr(mod, "replay"):
+                mod.replay(ctx, rp)
+                return ctx.finish()
         mod.run(ctx)
     except common.BuildError as e:
         # the machinery itself could not be built: exit 2 (never a verdict)
